@@ -1291,24 +1291,62 @@ theorem C10_exp_k_nearest_metric (argpart : List Int → Nat → List Nat) (hap 
     subst this
     exact h5 ad had b hb' hout q (h.pos b q hq)
 
+/-- Experimental `agent.get_neighbors_in_radius(r)` (`r ≥ 0`) in the same terms: for an agent whose last assigned position is `p`,
+    in a history whose vectors have one coordinate per axis, the call does not raise, and another agent `b` whose last assigned
+    position is `q` is returned with the number `d` iff `d` is the (toroidal) Euclidean distance of the property between `p` and
+    `q` and `d ≤ r²`; the agent itself is never returned. -/
+theorem C10_exp_neighbors_in_radius_metric (c : ECfg) (hw : c.WF) (cap : Nat) (ops : List EOp) (hwf : WfOps c ops)
+    (a : Aid) (p : Pos) (hp : (espec c ops).pos a = some p) (r : Int) (hr : 0 ≤ r) :
+    ∃ res, neighborsInRadius (erun c cap ops) a r = .ok res ∧ (∀ d, (a, d) ∉ res) ∧
+      ∀ b q, (espec c ops).pos b = some q → b ≠ a → ∀ d,
+        ((b, d) ∈ res ↔ MetricDist2 c.dims c.torus p q d ∧ d ≤ r * r) := by
+  have h := erun_refines c cap ops
+  have hget : ∀ b q, (espec c ops).pos b = some q → getPos (erun c cap ops) b = .ok q ∧ b ∈ (erun c cap ops).active := by
+    intro b q hq
+    have hg := h.pos b q hq
+    refine ⟨hg, ?_⟩
+    apply Classical.byContradiction; intro hn
+    rw [getPos_of_not_mem h.inv hn] at hg; cases hg
+  obtain ⟨hpa, hma⟩ := hget a p hp
+  obtain ⟨res, h1, h2⟩ := C10_exp_neighbors_in_radius c hw cap ops a p r hma hpa hr
+  refine ⟨res, h1, fun d hd => ((h2 a d).mp hd).1 rfl, fun b q hq hba d => ?_⟩
+  obtain ⟨hpb, hmb⟩ := hget b q hq
+  have hlp := C10_exp_positions_have_dimension c ops hwf a p hp
+  have hlq := C10_exp_positions_have_dimension c ops hwf b q hq
+  rw [h2 b d, C10_exp_distance_is_metric c hw p q hlp hlq d]
+  constructor
+  · rintro ⟨_, _, q', e1, e2, e3⟩
+    have : q = q' := by rw [hpb] at e1; exact Except.ok.inj e1
+    subst this
+    exact ⟨e2, e3⟩
+  · rintro ⟨e2, e3⟩
+    exact ⟨hba, hmb, q, hpb, e2, e3⟩
+
+/-- Legacy `get_heading(p, q)` for ANY two points: following it from `p` arrives at `q` (bounded space) or at a periodic image of
+    `q` (torus), and its squared length is the (toroidal) Euclidean distance of the property — it is a shortest vector from `p`
+    to an image of `q`. -/
+theorem C10_legacy_heading_metric (c : LCfg) (hw : c.WF) (p q : P2) :
+    (c.torus = false → (p.1 + (lheading c p q).1, p.2 + (lheading c p q).2) = q) ∧
+    (c.torus = true → ∃ kx ky : Int,
+      (p.1 + (lheading c p q).1, p.2 + (lheading c p q).2) = (q.1 + kx * c.width, q.2 + ky * c.height)) ∧
+    MetricDist2 c.dims c.torus [p.1, p.2] [q.1, q.2] (sq (lheading c p q).1 + sq (lheading c p q).2) := by
+  refine ⟨fun ht => ?_, fun ht => ?_, ?_⟩
+  · simp only [lheading, ht, axisHeading_flat]
+    apply Prod.ext <;> simp <;> omega
+  · obtain ⟨kx, hx⟩ := axisHeading_reaches c.width p.1 q.1
+    obtain ⟨ky, hy⟩ := axisHeading_reaches c.height p.2 q.2
+    exact ⟨kx, ky, by simp only [lheading, ht, hx, hy]⟩
+  · rw [C10_legacy_distance_is_metric c hw p q]
+    exact C10_legacy_heading_length c hw p q
+
+/-- Experimental `calculate_difference_vector`: for ANY two points with one coordinate per axis the squared length of the
+    difference vector is the (toroidal) Euclidean distance of the property. -/
+theorem C10_exp_difference_metric (c : ECfg) (hw : c.WF) (p q : Pos) (hp : p.length = c.dims.length)
+    (hq : q.length = c.dims.length) : MetricDist2 c.dims c.torus p q (norm2 (ediff c p q)) := by
+  rw [C10_exp_distance_is_metric c hw p q hp hq]
+  exact C10_exp_difference_length c hw p q
+
 /-! ### histories with vectors of any length reduce to histories with vectors of the right length -/
-
-/-- what numpy makes of the vector of a call on a space with `nd` axes: the call with the broadcast vector, or no call at
-    all (`ValueError` before anything is written) -/
-def normOp (nd : Nat) : EOp → Option EOp
-  | .set a p => match bcast nd p with | .ok q => some (.set a q) | .error _ => none
-  | .iadd a v => match bcast nd v with | .ok w => some (.iadd a w) | .error _ => none
-  | .raw i p => match bcast nd p with | .ok q => some (.raw i q) | .error _ => none
-  | op => some op
-
-/-- one call with a vector of any length, as the code runs it (`agentSetV` / `agentIaddV` / `rawWriteV`) -/
-def estepV (s : ESpace) : EOp → ESpace
-  | .set a p => match agentSetV s a p with | .ok s' => s' | .error _ => s
-  | .iadd a v => match agentIaddV s a v with | .ok s' => s' | .error _ => s
-  | .raw i p => match rawWriteV s i p with | .ok s' => s' | .error _ => s
-  | op => estep s op
-
-def erunV (c : ECfg) (cap : Nat) (ops : List EOp) : ESpace := ops.foldl estepV (einit c cap)
 
 /-- Every history of calls with vectors of ANY length leaves the space exactly as the history does in which each vector is
     replaced by what numpy broadcasts it to and the calls numpy rejects are dropped — and that history is well-formed
